@@ -74,10 +74,10 @@ def finish(chk, known_findings, min_obligations, extra_cov) -> int:
     if chk.crosscheck["disagreements"]:
         faults.append(f"interpreter/CPython cross-check disagreements: {chk.crosscheck['disagreements']}")
 
-    known_by = {k["obligation"]: k for k in known}
+    import fnmatch
     known_hits, violations = [], []
     for v in failing:
-        k = known_by.get(v.name)
+        k = next((k for k in known if fnmatch.fnmatchcase(v.name, k["obligation"])), None)
         if k is not None:
             known_hits.append((v, k))
         else:
@@ -108,9 +108,20 @@ def finish(chk, known_findings, min_obligations, extra_cov) -> int:
         tail = "" if status == "reproduced" else " no-failing-input-found"
         lines.append(f"VIOLATION property={prop} replay={path}{tail}")
 
+    # an obligation left open by the solvers inside a known-finding family adds nothing to the finding
+    for u in list(undecided):
+        nm = u.split(":")[0]
+        if any(fnmatch.fnmatchcase(nm, k["obligation"]) for k in known):
+            undecided.remove(u)
+            chk.notes.append(f"undecided member of a known-finding family: {u}")
+    printed = set()
     for v, k in known_hits:
-        print(f"KNOWN-FINDING: property={prop} obligation={v.name} {k['text']}")
-    stale = [k for k in known if k["obligation"] not in {v.name for v, _ in known_hits}]
+        if k["obligation"] in printed:
+            continue
+        printed.add(k["obligation"])
+        n = sum(1 for _, kk in known_hits if kk is k)
+        print(f"KNOWN-FINDING: property={prop} obligation={k['obligation']} ({n} failing obligations, e.g. {v.name}) {k['text']}")
+    stale = [k for k in known if not any(k is kk for _, kk in known_hits)]
     for k in stale:
         chk.notes.append(f"known finding {k['obligation']} did not fire on this run")
 
